@@ -327,6 +327,23 @@ func highcmd(w []string) bool {
 					}
 				}
 			}
+			// the strings scanned in the very first pass were kept all along, through every later transaction on this handle
+			// (which read the other rows, in other orders): they still are what they were
+			for round := 0; round < 2; round++ {
+				for i := len(keep) - 1; i >= 0; i-- {
+					var s string
+					hd.SelectDone(w[1], func(r sqlittle.Row) bool { r.Scan(&s); return true }, w[2])
+					if r, err := hd.SelectRowid(w[1], int64(i+1), w[2]); err == nil && r != nil {
+						r.Scan(&s)
+					}
+				}
+				for i := range firstS {
+					if firstS[i] != string(keep[i]) {
+						fmt.Fprintf(out, "scanmut row %d: a string scanned earlier changed after later reads on the same handle (len %d)\n", i, len(keep[i]))
+						return
+					}
+				}
+			}
 			db.Close()
 			for i := range second {
 				if string(second[i]) != string(keep[i]) || firstS[i] != string(keep[i]) {
@@ -677,6 +694,38 @@ func dbcmd(w []string) {
 			}
 			fmt.Fprintln(out, end(stopped, err))
 		})
+	case (w[0] == "nscan" || w[0] == "niscan") && len(w) == 3:
+		// a scan whose callback, at every row, runs another scan on the SAME Table / Index value and ends it at its first row (the
+		// usual "fetch one" lookup from inside a loop): the outer scan stops when ITS callback says so, after exactly `limit` rows
+		limit := atoi(w[2])
+		guard("end err ", func() {
+			n, stopped := 0, false
+			var err error
+			if w[0] == "nscan" {
+				tb := sdb.VerifTable(db, atoi(w[1]))
+				err = tb.Scan(func(rowid int64, rec sdb.Record) bool {
+					fmt.Fprintf(out, "row %d %s\n", rowid, h.ShowRecord(rec))
+					tb.Scan(func(int64, sdb.Record) bool { return true })
+					n++
+					if limit > 0 && n >= limit {
+						stopped = true
+					}
+					return stopped
+				})
+			} else {
+				ind := sdb.VerifIndex(db, atoi(w[1]))
+				err = ind.Scan(func(rec sdb.Record) bool {
+					fmt.Fprintf(out, "row %s\n", h.ShowRecord(rec))
+					ind.ScanMin(sdb.Key{}, func(sdb.Record) bool { return true })
+					n++
+					if limit > 0 && n >= limit {
+						stopped = true
+					}
+					return stopped
+				})
+			}
+			fmt.Fprintln(out, end(stopped, err))
+		})
 	case w[0] == "rowid" && len(w) == 3:
 		guard("err ", func() {
 			rec, err := sdb.VerifTable(db, atoi(w[1])).Rowid(atoi64(w[2]))
@@ -932,6 +981,11 @@ func main() {
 			if db != nil {
 				db.Close()
 				db = nil
+			}
+		case strings.HasPrefix(line, "lockfail "):
+			// the pager refuses the next read locks (another process holds PENDING / EXCLUSIVE): "lockfail on" / "lockfail off"
+			if pager != nil {
+				pager.LockFail = line == "lockfail on"
 			}
 		case strings.HasPrefix(line, "poke "):
 			// poke OFFSET HEX: overwrite bytes of the image under the open handle
